@@ -228,6 +228,7 @@ func buildPlan(id string, pinned map[string]string, tier string) *Plan {
 		p := &Plan{ID: id}
 		for _, c := range fftCfgs("/repo") {
 			p.Units = append(p.Units, Unit{Pkg: c.Pkg, Tags: "purego", Groups: []string{"kernels"}, Deps: []string{c.Field + ":vector", c.Field + ":field"}})
+			p.Units = append(p.Units, Unit{Pkg: c.Pkg, Tags: "", Groups: []string{"domain"}})
 		}
 		p.Trusted = []string{"ring layer over the field's Element (C01 contracts); Vector.Mul through its contract (C01, portable build); Element.Exp is an uninterpreted power at the ring layer",
 			"twseq(t, x, n) = t * x^n is axiomatised by its two defining equations (a total function by recursion on n)"}
@@ -251,11 +252,11 @@ func buildPlan(id string, pinned map[string]string, tier string) *Plan {
 		return p
 	case "C12":
 		p := &Plan{ID: id}
-		for _, pk := range globPkgs("/repo", "ecc/*/ecdsa") {
-			p.Units = append(p.Units, Unit{Pkg: pk, Tags: "", Groups: []string{"ecdsa"}})
-		}
 		for _, pk := range ecdsaRecoverPkgs("/repo") {
-			p.Units = append(p.Units, Unit{Pkg: pk, Tags: "", Groups: []string{"ecdsarecover"}})
+			p.Units = append(p.Units, Unit{Pkg: pk, Tags: "", Groups: []string{"ecdsa", "ecdsarecover"}})
+		}
+		for _, pk := range ecdsaPlainPkgs("/repo") {
+			p.Units = append(p.Units, Unit{Pkg: pk, Tags: "", Groups: []string{"ecdsa", "ecdsasign"}})
 		}
 		for _, pk := range eddsaPkgs("/repo") {
 			p.Units = append(p.Units, Unit{Pkg: pk, Tags: "", Groups: []string{"eddsa"}})
